@@ -47,9 +47,16 @@ HasNewline(d, i) == i <= Len(d) /\ (At(d, i) \in {"\n", "\r"} \/ HasNewline(d, i
 RECURSIVE LStripS(_), RStripS(_)
 LStripS(x) == IF x # "" /\ At(x, 1) \in {" ", "\t"} THEN LStripS(Tail(x)) ELSE x
 RStripS(x) == IF x # "" /\ At(x, Len(x)) \in {" ", "\t", ";"} THEN RStripS(SubSeq(x, 1, Len(x) - 1)) ELSE x
+RECURSIVE StripSemis(_), HasSemi(_, _)
+StripSemis(x) == IF x # "" /\ At(x, Len(x)) = ";" THEN StripSemis(SubSeq(x, 1, Len(x) - 1)) ELSE x
+HasSemi(x, i) == i <= Len(x) /\ (At(x, i) = ";" \/ HasSemi(x, i + 1))
 Def(r) == LET d == Raw[r].def
               e == PropEnd(d, 1)
-              isProp == e > 1 /\ ~HasNewline(d, 1) /\ (e = Len(d) + 1 \/ At(LStripS(SubSeq(d, e, Len(d))), 1) = ":")
+              after == IF e <= Len(d) THEN LStripS(SubSeq(d, e, Len(d))) ELSE ""           \* ":" value ";"* when it is a property
+              \* re_property: the value is at least one character and holds no semicolon - only trailing ones are dropped
+              \* ("overflow:hidden;text-overflow:ellipsis" is a raw snippet)
+              isProp == e > 1 /\ ~HasNewline(d, 1)
+                        /\ (e = Len(d) + 1 \/ (At(after, 1) = ":" /\ LET v == StripSemis(Tail(after)) IN v # "" /\ ~HasSemi(v, 1)))
               rest == IF isProp /\ e <= Len(d) THEN RStripS(LStripS(Tail(LStripS(SubSeq(d, e, Len(d)))))) ELSE ""
           IN [kind |-> IF isProp THEN "prop" ELSE "raw", prop |-> IF isProp THEN SubSeq(d, 1, e - 1) ELSE "",
               alts |-> IF rest = "" THEN <<>> ELSE Split(rest, "|"), body |-> d]
